@@ -131,8 +131,35 @@ def build():
     A(Contract(f"{M}:_get_next_unique_id", params={"id_": "str"}, returns="str", globals={"NODE_REGISTRY": "Dict[str,Ref]"}, props=["C03"], trusted=True,
                trusted_reason="proved under C03 (contracts.node_registry)",
                ensures=["reg_get(NODE_REGISTRY, result) is None", "NODE_REGISTRY == old(NODE_REGISTRY)"]))
+    bad_of = z3.Function("bad_fields_of", REF.z3(), z3.SeqSort(FLD.z3()))
+    sf["bad_fields_of"] = lambda n: seq_of(FLD).wrap(bad_of(nv.ref(n)))
     A(Contract(f"{M}:_check_runtime_types", params={"node": "Ref", "type_map": "py:typemap"}, returns="Seq[Fld]", props=["C13"], trusted=True,
-               trusted_reason="C13 (bounded)", ensures=[]))
+               trusted_reason="proved under C13 (contracts.typing_area): exactly the fields whose value does not conform; abstracted here as bad_fields_of(node) "
+                              "for the mapping of all fields except id / content_id",
+               may_raise=["RuntimeError"], ensures=["result == bad_fields_of(node)"]))
+    world.exc_parents["InvalidTypes"] = "Exception"
+
+    def dictcomp_hook(m, e, hint):
+        src = ast.unparse(e) if isinstance(e, ast.DictComp) else ""
+        return None
+
+    import ast
+    orig_dictcomp = None
+
+    def call_gate(m, func, args, kwargs, node):
+        return NotImplemented
+
+    # the dict comprehension that selects the fields to check is opaque here (it only filters id / content_id)
+    from pyvc import maps as _maps
+    _orig = _maps.eval_dictcomp
+
+    def eval_dictcomp(m, e, hint):
+        if m.world is world and "get_cls_all_fields" in ast.unparse(e):
+            return VPy("typemap")
+        return _orig(m, e, hint)
+
+    _maps.eval_dictcomp = eval_dictcomp
+    world.name_hooks.append(lambda m, n: VCls("InvalidTypes") if n == "InvalidTypes" else None)
     A(Contract(f"{M}:ASTNode.__post_init__", params={"self": "Ref"}, globals=G, modifies=["NODE_REGISTRY"], props=["C01", "C03"],
                requires=["not config.RUNTIME_TYPE_CHECK", "SELF_ID is None", "SELF_CID is None"],
                ensures=["SELF_CID == H(ENC_cid(self), config.ID_DIGEST_SIZE)",
@@ -146,6 +173,17 @@ def build():
                note="content_id is the digest of ENC_cid(self), a function of the class name, the sorted comparable properties and the sorted children's content_ids only; "
                     "the id is the digest of ENC_id(self) when that key is free, otherwise a free collision-suffixed key; the node is registered under it and nothing else changes. "
                     "(type-check gate: C13; flag off in this contract)"))
+    A(Contract(f"{M}:ASTNode.__post_init__", variant_of="type-check-on", params={"self": "Ref"}, globals=G, modifies=["NODE_REGISTRY"], props=["C13"],
+               requires=["config.RUNTIME_TYPE_CHECK", "SELF_ID is None", "SELF_CID is None"],
+               raises=[("InvalidTypes", "len(bad_fields_of(self)) > 0")], may_raise=["RuntimeError"],
+               exc_ensures=["NODE_REGISTRY == old(NODE_REGISTRY)", "SELF_ID is None", "SELF_CID is None"],
+               ensures=["SELF_CID == H(ENC_cid(self), config.ID_DIGEST_SIZE)", "NODE_REGISTRY == reg_set(old(NODE_REGISTRY), SELF_ID, self)",
+                        "implies(reg_get(old(NODE_REGISTRY), H(ENC_id(self), config.ID_DIGEST_SIZE)) is None, SELF_ID == H(ENC_id(self), config.ID_DIGEST_SIZE))"],
+               loops={1: Loop(inv=["cid_data == PP(done1)"]),
+                      2: Loop(inv=["cid_data == clsname(self) + PP(props_sc(self)) + CP(done2)",
+                                   "id_data == clsname(self) + '@' + fqn(self.origin) + PP(props_sc(self)) + CPid(done2)"])},
+               note="with checking on: InvalidTypes exactly when some field does not conform, raised before any digest or registry effect; otherwise the very same "
+                    "content_id / id / registration as with checking off (the flag-off contract has identical postconditions)"))
     # ---- deserialization: re-use of a registered node or forcing the serialized id ---------------------------
     PAY = usort("Payload")
     pay_id = z3.Function("payload_id", PAY.z3(), z3.StringSort())
